@@ -6,7 +6,6 @@ package main
 
 import (
 	"fmt"
-	"sort"
 	"strconv"
 	"strings"
 
@@ -383,11 +382,14 @@ func walkAny(m protoreflect.Message, depth int, f func(*anypb.Any)) {
 // validateAll returns "<Type>:<name>" for every resource the API validation rejects, and the
 // canonical reasons (sorted, de-duplicated) for the report.
 func (sn *snapshot) validateAll() (invalid []string, reasons []string) {
-	rs := map[string]bool{}
+	seen := map[string]bool{}
 	add := func(kind, name string, m proto.Message) {
 		if r := pgv(m); r != "" {
 			invalid = append(invalid, kind+":"+name)
-			rs[r] = true
+			if !seen[r] {
+				seen[r] = true
+				reasons = append(reasons, r) // in resource order: the first reason belongs to the first invalid resource
+			}
 		}
 	}
 	for _, l := range sn.listeners {
@@ -404,12 +406,11 @@ func (sn *snapshot) validateAll() (invalid []string, reasons []string) {
 	}
 	for _, u := range sn.undecodable {
 		invalid = append(invalid, "Undecodable:"+u)
-		rs["undecodable"] = true
+		if !seen["undecodable"] {
+			seen["undecodable"] = true
+			reasons = append(reasons, "undecodable")
+		}
 	}
-	for r := range rs {
-		reasons = append(reasons, r)
-	}
-	sort.Strings(reasons)
 	return invalid, reasons
 }
 
